@@ -136,6 +136,8 @@ enum Action {
     SetSparse(Vec<String>),
     Write(String),
     Delete(String),
+    /// the user replaces whatever is at the path (a directory with tracked files in it) by a file
+    DirToFile(String),
     Snapshot,
     Checkout(String),
 }
@@ -146,6 +148,7 @@ impl Action {
             Action::SetSparse(p) => format!("set_sparse[{}]", p.iter().map(|s| if s.is_empty() { "." } else { s }).collect::<Vec<_>>().join(",")),
             Action::Write(p) => format!("write:{p}"),
             Action::Delete(p) => format!("delete:{p}"),
+            Action::DirToFile(p) => format!("dir_to_file:{p}"),
             Action::Snapshot => "snapshot".into(),
             Action::Checkout(t) => format!("check_out:{t}"),
         }
@@ -155,6 +158,7 @@ impl Action {
             Action::SetSparse(p) => json!({"op": "set_sparse_patterns", "patterns": p}),
             Action::Write(p) => json!({"op": "write", "path": p, "content": edit_content(p)}),
             Action::Delete(p) => json!({"op": "delete", "path": p}),
+            Action::DirToFile(p) => json!({"op": "replace_by_file", "path": p, "content": edit_content(p)}),
             Action::Snapshot => json!({"op": "snapshot"}),
             Action::Checkout(t) => json!({"op": "check_out", "tree": t, "tree_content": tree_to_json(&tree_spec(t))}),
         }
@@ -164,6 +168,7 @@ impl Action {
             "set_sparse_patterns" => Action::SetSparse(serde_json::from_value(v["patterns"].clone()).ok()?),
             "write" => Action::Write(v["path"].as_str()?.to_string()),
             "delete" => Action::Delete(v["path"].as_str()?.to_string()),
+            "replace_by_file" => Action::DirToFile(v["path"].as_str()?.to_string()),
             "snapshot" => Action::Snapshot,
             "check_out" => Action::Checkout(v["tree"].as_str()?.to_string()),
             _ => return None,
@@ -189,6 +194,7 @@ fn alphabet(trees: &[&str]) -> Vec<Action> {
     for p in DELETE_PATHS {
         v.push(Action::Delete(p.to_string()));
     }
+    v.push(Action::DirToFile("d".to_string()));
     v.push(Action::Snapshot);
     for t in trees {
         v.push(Action::Checkout(t.to_string()));
@@ -391,6 +397,15 @@ fn execute(ws: &mut TestWorkspace, action: &Action, tick: i64) -> Result<Outcome
     match action {
         Action::Write(p) => {
             let full = root.join(p);
+            // a parent that is a file: the user cannot write there, nothing happens
+            let mut dir = root.clone();
+            let comps: Vec<&str> = p.split('/').collect();
+            for c in &comps[..comps.len() - 1] {
+                dir.push(c);
+                if dir.symlink_metadata().is_ok_and(|m| !m.is_dir()) {
+                    return Ok(Outcome::None);
+                }
+            }
             std::fs::create_dir_all(full.parent().unwrap()).unwrap_or_else(|e| machinery_failure(&format!("mkdir: {e}")));
             if full.symlink_metadata().is_ok_and(|m| m.file_type().is_symlink()) {
                 std::fs::remove_file(&full).unwrap();
@@ -409,6 +424,17 @@ fn execute(ws: &mut TestWorkspace, action: &Action, tick: i64) -> Result<Outcome
                     dir = dir.parent().unwrap().to_path_buf();
                 }
             }
+            Ok(Outcome::None)
+        }
+        Action::DirToFile(p) => {
+            let full = root.join(p);
+            match full.symlink_metadata() {
+                Ok(m) if m.is_dir() => std::fs::remove_dir_all(&full).unwrap_or_else(|e| machinery_failure(&format!("rm -r: {e}"))),
+                Ok(_) => std::fs::remove_file(&full).unwrap_or_else(|e| machinery_failure(&format!("rm: {e}"))),
+                Err(_) => {}
+            }
+            std::fs::write(&full, edit_content(p)).unwrap_or_else(|e| machinery_failure(&format!("write: {e}")));
+            set_mtime(&full, 1_700_000_000 + tick);
             Ok(Outcome::None)
         }
         Action::Snapshot => {
@@ -473,15 +499,12 @@ struct Tally {
     per_action_changed: Mutex<BTreeMap<String, (u64, u64)>>,
 }
 
-/// Is something in the way of creating a file at `p`?
-fn blocked(disk: &Disk, p: &str) -> bool {
-    if disk.files.contains_key(p) || disk.dirs.contains(p) {
-        return true;
-    }
+/// Is `p` below a file (which the update itself is not going to remove first)?
+fn below_a_file(disk: &Disk, p: &str, removed_by_update: &dyn Fn(&str) -> bool) -> bool {
     let mut prefix = String::new();
     for comp in p.split('/') {
         if !prefix.is_empty() {
-            if disk.files.contains_key(&prefix) {
+            if disk.files.contains_key(&prefix) && !removed_by_update(&prefix) {
                 return true;
             }
             prefix.push('/');
@@ -489,6 +512,11 @@ fn blocked(disk: &Disk, p: &str) -> bool {
         prefix.push_str(comp);
     }
     false
+}
+
+/// Is something in the way of creating a file at `p`?
+fn blocked(disk: &Disk, p: &str, removed_by_update: &dyn Fn(&str) -> bool) -> bool {
+    disk.files.contains_key(p) || disk.dirs.contains(p) || below_a_file(disk, p, removed_by_update)
 }
 
 fn same_file(a: &DiskEntry, b: &DiskEntry) -> bool {
@@ -504,7 +532,7 @@ fn check_transition(pre: &Obs, action: &Action, outcome: &Outcome, post: &Obs, t
     let mut post_sorted = post.patterns.clone();
     post_sorted.sort();
     match action {
-        Action::Write(_) | Action::Delete(_) => Ok(()),
+        Action::Write(_) | Action::Delete(_) | Action::DirToFile(_) => Ok(()),
         Action::SetSparse(new_patterns) => {
             let Outcome::Stats(stats) = outcome else { machinery_failure("no stats") };
             let mut want = new_patterns.clone();
@@ -523,8 +551,12 @@ fn check_transition(pre: &Obs, action: &Action, outcome: &Outcome, post: &Obs, t
             let leaving: Vec<&String> =
                 pre.tree.keys().filter(|p| !in_patterns(new_patterns, p) && in_patterns(&pre.patterns, p)).collect();
             let mut n_blocked = 0u32;
+            // a path that leaves is removed by the update even if the user changed the file
+            let removed = |r: &str| leaving.iter().any(|l| l.as_str() == r);
+            // leaving paths below a user file cannot be removed (there is nothing to remove)
+            let n_leaving_below_file = leaving.iter().filter(|p| below_a_file(&pre.disk, p, &|_| false)).count() as u32;
             for p in &entering {
-                if blocked(&pre.disk, p) {
+                if blocked(&pre.disk, p, &removed) {
                     n_blocked += 1;
                     // a user file is in the way: it must survive
                     if let Some(d) = pre.disk.files.get(*p)
@@ -583,7 +615,7 @@ fn check_transition(pre: &Obs, action: &Action, outcome: &Outcome, post: &Obs, t
                     return fail("set-sparse/unexpected-file-created", format!("{q} appeared ({:?} -> {:?})", pre.patterns, new_patterns));
                 }
             }
-            let expect = (entering.len() as u32, leaving.len() as u32, 0u32, n_blocked);
+            let expect = (entering.len() as u32, leaving.len() as u32, 0u32, n_blocked + n_leaving_below_file);
             let got = (stats.added_files, stats.removed_files, stats.updated_files, stats.skipped_files);
             if expect != got {
                 return fail(
@@ -704,6 +736,7 @@ fn check_transition(pre: &Obs, action: &Action, outcome: &Outcome, post: &Obs, t
             all.extend(target.keys());
             let mut outside_diff = false;
             let mut blocked_inside = false;
+            let removed = |r: &str| in_patterns(&pre.patterns, r) && pre.tree.contains_key(r) && !target.contains_key(r);
             for p in all {
                 let before = pre.tree.get(p);
                 let after = target.get(p);
@@ -733,10 +766,12 @@ fn check_transition(pre: &Obs, action: &Action, outcome: &Outcome, post: &Obs, t
                     if !same {
                         return fail("check_out/unchanged-path-touched", format!("{p}: disk was {d_pre:?}, now {d_post:?}"));
                     }
-                } else if before.is_none() && blocked(&pre.disk, p) {
+                } else if (before.is_none() && blocked(&pre.disk, p, &removed)) || below_a_file(&pre.disk, p, &removed) {
+                    // skipped: a user file is at the path or above it
                     blocked_inside = true;
                     let same = match (d_pre, d_post) {
                         (Some(a), Some(b)) => same_file(a, b),
+                        (None, None) => true,
                         _ => false,
                     };
                     if !same {
@@ -810,7 +845,27 @@ fn run_history(history: &[Action], tally: &Tally) -> Result<String, Failure> {
         }
     }
     let pre = observe(&ws);
-    let outcome = execute(&mut ws, &last[0], prefix.len() as i64)?;
+    let outcome = execute(&mut ws, &last[0], prefix.len() as i64).map_err(|mut f| {
+        if let Action::SetSparse(new_patterns) = &last[0]
+            && f.signature == "C27/set-sparse/panic"
+        {
+            // which leaving paths could not be removed because the user put a file above them?
+            let stuck: Vec<&String> = pre
+                .tree
+                .keys()
+                .filter(|p| in_patterns(&pre.patterns, p) && !in_patterns(new_patterns, p))
+                .filter(|p| below_a_file(&pre.disk, p, &|_| false) || pre.disk.dirs.contains(*p))
+                .collect();
+            if !stuck.is_empty() && f.message.contains("assertion `left == right` failed") {
+                f.signature = "C27/set-sparse/panic/leaving-path-cannot-be-removed".into();
+                f.message = format!(
+                    "{} — paths {stuck:?} leave the patterns ({:?} -> {new_patterns:?}) but lie below a file the user put there;                      set_sparse_patterns panics after it has already changed the disk, nothing is saved",
+                    f.message, pre.patterns
+                );
+            }
+        }
+        f
+    })?;
     let post = observe(&ws);
     check_transition(&pre, &last[0], &outcome, &post, tally)?;
     let key = canonical_key(&post);
